@@ -129,6 +129,8 @@ type SimCfg struct {
 	PStripeLose int           `json:"p_lose"`    // per mille per Get: lose the stripe
 	ClockKinds  []int         `json:"clock_kinds"`
 	MaxSteps    int           `json:"max_steps"`
+	PAuto       int           `json:"p_auto,omitempty"`       // per mille of the mechanically inserted sites enabled in this run
+	AutoVisits  int           `json:"auto_visits,omitempty"` // an enabled site parks on its first AutoVisits visits
 }
 
 type Plan struct {
@@ -290,7 +292,7 @@ func init() {
 	add(&profile{name: "close", clientsLo: 1, clientsHi: 4, opsLo: 3, opsHi: 20, keysLo: 1, keysHi: 6,
 		mix:     mix{get: 20, set: 30, setTTL: 10, del: 10, wait: 10, clear: 8, yield: 3, iter: 2},
 		capMode: []int{CapFew, CapAll, CapTiny}, bufSmall: 600, collide: 0, strKeys: 200,
-		pClockLo: 0, pClockHi: 40, ttlNeg: 20, shouldUpd: 50, costFn: 100, metricsPM: 600, closer: true, epilogue: "close", quiescePM: 10, starveAppl: 300})
+		pClockLo: 0, pClockHi: 40, ttlNeg: 20, shouldUpd: 250, costFn: 100, metricsPM: 600, closer: true, epilogue: "close", quiescePM: 10, starveAppl: 300})
 	// C17: metrics
 	add(&profile{name: "metrics", clientsLo: 1, clientsHi: 4, opsLo: 8, opsHi: 35, keysLo: 2, keysHi: 10,
 		mix:     mix{get: 40, set: 30, setTTL: 8, del: 8, getTTL: 2, wait: 4, clear: 1, reads: 6, yield: 2, upmax: 1},
@@ -686,9 +688,16 @@ func GenPlan(profName string, seed uint64) *Plan {
 	if len(s.ClockKinds) == 0 {
 		s.ClockKinds = []int{ClkTiny, ClkExpiry}
 	}
-	s.MaxSteps = 20000
+	s.PAuto = g.pick([]int{0, 0, 50, 200, 500, 1000})
+	s.AutoVisits = g.pick([]int{2, 8, 40})
+	if hashDependent {
+		// which shard a key lives in varies per process here: a preemption inside
+		// a loop over the shards would make the run depend on it
+		s.PAuto = 0
+	}
+	s.MaxSteps = 60000
 	if nclients > 8 {
-		s.MaxSteps = 60000
+		s.MaxSteps = 200000
 	}
 	if pr.maxSteps > 0 {
 		s.MaxSteps = pr.maxSteps
@@ -745,9 +754,20 @@ func GenPlan(profName string, seed uint64) *Plan {
 	case "close":
 		p.Epilogue = []Op{{K: OpWait}, {K: OpQuiesce}, {K: OpClear}, {K: OpCheckFresh}}
 		// a short program on the cleared cache: must behave as new
-		for i := 0; i < g.rng(2, 6); i++ {
+		for i, n := 0, g.rng(2, 8); i < n; i++ {
 			k := g.n(nkeys)
-			p.Epilogue = append(p.Epilogue, Op{K: OpSet, Key: k, Cost: 1}, Op{K: OpWait}, Op{K: OpGet, Key: k})
+			switch x := g.n(10); {
+			case x < 6:
+				p.Epilogue = append(p.Epilogue, Op{K: OpSet, Key: k, Cost: 1}, Op{K: OpWait}, Op{K: OpGet, Key: k})
+			case x < 7:
+				p.Epilogue = append(p.Epilogue, Op{K: OpSet, Key: k, Cost: 1}, Op{K: OpGet, Key: k}) // overwrite (or pending insert) without Wait
+			case x < 8:
+				p.Epilogue = append(p.Epilogue, Op{K: OpSet, Key: k, Cost: 1, TTL: g.pick64(ttlMenu)}, Op{K: OpWait}, Op{K: OpGetTTL, Key: k}, Op{K: OpGet, Key: k})
+			case x < 9:
+				p.Epilogue = append(p.Epilogue, Op{K: OpDel, Key: k}, Op{K: OpWait}, Op{K: OpGet, Key: k})
+			default:
+				p.Epilogue = append(p.Epilogue, Op{K: OpWait}, Op{K: OpIter, Arg: -1})
+			}
 		}
 		if g.p(500) {
 			p.Epilogue = append(p.Epilogue, Op{K: OpClear}, Op{K: OpCheckFresh})
